@@ -101,3 +101,23 @@ package agent
 //@ ensures old(c.readOffset) >= len(old(c.readBuf)) && err == nil ==> result == min(len(b), len(pt)) && forall i in 0..result: b[i] == ptBytes[offset(pt) + i]
 //@ ensures old(c.readOffset) >= len(old(c.readBuf)) && err == nil && result < len(pt) ==> c.readBuf == pt && c.readOffset == result
 //@ ensures old(c.readOffset) >= len(old(c.readBuf)) && err == nil && result == len(pt) ==> c.readOffset == len(c.readBuf)
+
+// Agent.WriteStreamData (the StreamWriter of the exit, forward, shell and
+// file-transfer handlers): the frames it emits carry consecutive, non-empty
+// pieces of data of at most 16384 bytes each, in order, all for the given
+// peer and stream; the caller's flags travel on the last piece only. Data of
+// at most 16384 bytes is therefore emitted as exactly one frame.
+
+//@ func (*Agent).WriteStreamData
+//@ prop C07
+//@ check bounds
+//@ modifies *, c07sent
+//@ ghostinit c07sent = 0
+//@ loop 0 invariant 0 <= offset && offset <= len(data) && c07sent == offset
+//@ at call SendToPeer#0 assert len(data) == 0 && len($2.Payload) == 0 && $2.Flags == flags && $2.Type == protocol.FrameStreamData && $2.StreamID == streamID && $1 == peerID
+//@ at call SendToPeer#1 assert base($2.Payload) == base(data) && offset($2.Payload) == offset(data) + c07sent && len($2.Payload) >= 1 && len($2.Payload) <= 16384 && c07sent + len($2.Payload) <= len(data)
+//@ at call SendToPeer#1 assert len(data) <= 16384 ==> len($2.Payload) == len(data)
+//@ at call SendToPeer#1 assert $2.Flags == ite(c07sent + len($2.Payload) == len(data), flags, 0) && $2.Type == protocol.FrameStreamData && $2.StreamID == streamID && $1 == peerID
+//@ at call SendToPeer#1 let pieceLen = len($2.Payload)
+//@ after call SendToPeer#1 set c07sent = ite($ret == nil, c07sent + pieceLen, c07sent)
+//@ ensures err == nil && len(data) > 0 ==> c07sent == len(data)
